@@ -522,6 +522,9 @@ class TypeTransformer:
             return t.utcfromtimestamp(data).replace(tzinfo=timezone.utc)
 
         data = self._from_byte_like(data)
+        if not isinstance(data, str):
+            # a list, a mapping ...: not a datetime (and has no .endswith)
+            raise TypeError('invalid datetime')
         is_utc = "GMT" in data or 'UTC' in data or data.endswith("Z") and "T" in data
         data = data.replace('GMT', '').replace('UTC', '').replace('TZD', '').rstrip('Z').strip()
 
